@@ -91,7 +91,45 @@ def items(name):
             if j < len(C20_WORDS):
                 out.append(mk_w(*C20_WORDS[j]))
         return out
+    if name == "c01":
+        # building and serialising messages (metamorphic oracle: the bytes a thread gets are the bytes the same construction gives alone)
+        import datetime as _dt
+        from bromelia.base import DiameterMessage, DiameterHeader, DiameterAnswer
+        from bromelia.avps import (OriginHostAVP, OriginRealmAVP, SessionIdAVP, UserNameAVP, ResultCodeAVP, EventTimestampAVP, HostIpAddressAVP,
+                                   VendorSpecificApplicationIdAVP, VendorIdAVP, AuthApplicationIdAVP, ProxyInfoAVP, ProxyHostAVP, ProxyStateAVP)
+
+        def mk(k):
+            def f():
+                hdr = DiameterHeader(flags=0x80 if k % 2 else 0x40, command_code=316 + k, application_id=16777251, hop_by_hop=100 + k, end_to_end=200 + k)
+                avps = [SessionIdAVP(f"s;{k};{k}".encode()), OriginHostAVP("host%d.example" % k), OriginRealmAVP("realm%d" % k),
+                        UserNameAVP("u" * (3 * k + 1)), EventTimestampAVP(_dt.datetime(2020 + k, 1 + k, 2, 3, 4, 5 + k)), HostIpAddressAVP(f"10.0.{k}.1"),
+                        VendorSpecificApplicationIdAVP([VendorIdAVP(10415), AuthApplicationIdAVP(16777251 + k)]),
+                        ProxyInfoAVP([ProxyHostAVP("p%d.example" % k), ProxyStateAVP(b"st" * (k + 1))]), ResultCodeAVP(2001 + k)]
+                msg = DiameterMessage(hdr, avps[:4])
+                for a in avps[4:]:
+                    msg.append(a)
+                return [msg.dump().hex(), bytes(msg).hex(), msg.header.get_length()]
+            return f
+        return [mk(k) for k in range(5)]
+    if name == "c02":
+        from bromelia.base import DiameterMessage
+        from . import firstuse
+        from . import refcodec as rc
+        base = firstuse.c02_wire()
+        wires = [base, base + base, rc.enc_msg(1, 0x40, 318, 16777251, 7, 8, [rc.enc_avp(268, 0x40, None, (5012).to_bytes(4, "big")),
+                                                                           rc.enc_avp(264, 0x40, None, b"other.example")]),
+                 rc.enc_msg(1, 0x80, 280, 0, 9, 10, [rc.enc_avp(264, 0x40, None, b"h"), rc.enc_avp(296, 0x40, None, b"r")])]
+
+        def mk(w):
+            def f():
+                msgs = DiameterMessage.load(w)
+                return [[type(a).__name__ for a in m.avps] for m in msgs] + [b"".join(m.dump() for m in msgs).hex() == w.hex(), len(msgs)]
+            return f
+        return [mk(w) for w in wires]
     raise ValueError(name)
+
+
+METAMORPHIC = {"c01", "c02"}          # expected values = what the same item returns when it runs alone, before any other thread exists
 
 
 def _tbcd(s):
@@ -143,13 +181,24 @@ def child(name, k, ns):
     from vf.dsched import Scheduler, Net, Patch
     sched = Scheduler(choices=None, line_preempt=False, trace_prefix=common.REPO.rstrip("/") + "/bromelia/", max_steps=3000000, line_holds=True)
     net = Net(sched)
-    want = expected(name)
+    want = expected(name) if name not in METAMORPHIC else None
     out = {"k": k, "ran": [], "bad": None, "error": None, "holds_taken": 0}
     with Patch(sched, net):
         sched.register_driver()
         try:
             its = items(name)
             N = len(its)
+            if want is None:
+                alone = []
+
+                def ref_run():
+                    for i in range(N):
+                        alone.append(its[i]())
+                rt = sched.spawn(ref_run, "ref")
+                sched.run_until(lambda: rt.state == "finished", 60.0)
+                if rt.exc is not None or len(alone) != N:
+                    raise RuntimeError(f"workload {name} fails when run alone: {rt.exc!r}")
+                want = alone
 
             def runner(tag, order, res):
                 def body():
@@ -206,14 +255,15 @@ def run_child(args):
     return d
 
 
-def sweep(col, name, clause, ks, nmax, chunk=12):
-    """all scenarios (k, n) for k in ks and n = 1..nmax (cut where t0 has run out of lines), recorded in `col`"""
+def sweep(col, name, clause, ks, nmax, chunk=12, step=1):
+    """all scenarios (k, n) for k in ks and n = 1, 1+step, ... <= nmax (cut where t0 has run out of lines), recorded in `col`"""
     from . import common
     from .common import V
     jobs = []
     for k in ks:
-        for lo in range(1, nmax + 1, chunk):
-            jobs.append((name, k, list(range(lo, min(lo + chunk, nmax + 1))), common.REPO))
+        ns = list(range(1, nmax + 1, step))
+        for lo in range(0, len(ns), chunk):
+            jobs.append((name, k, ns[lo:lo + chunk], common.REPO))
     for r in common.pmap(run_child, jobs):
         if r.get("error"):
             raise RuntimeError(f"mid-call harness: {r['error']}")
